@@ -70,6 +70,11 @@ MUTANTS = [
     ("prepend_realloc_one_short", "process.posix.c", "realloc(cwd, cwd_size + path_size + 1)", "realloc(cwd, cwd_size + path_size)", "path_prepend_cwd", "path_prepend_cwd.pointer_dereference"),
     ("prepend_leaks_on_getcwd_error", "process.posix.c", "    if (errno != ERANGE) {\n      free(cwd);\n      return NULL;\n    }", "    if (errno != ERANGE) {\n      return NULL;\n    }", "path_prepend_cwd", "__CPROVER__start.memory-leak.1"),
     ("prepend_no_separator", "process.posix.c", "  if (cwd[cwd_size - 1] != '/') {", "  if (0) {", "path_prepend_cwd", "C03/path_prepend_cwd.cwd_then_one_slash_then_path"),
+    ("drain_sinks_swapped", "drain.c", "reproc_sink sink = stream == REPROC_STREAM_OUT ? out : err;", "reproc_sink sink = stream == REPROC_STREAM_OUT ? err : out;", "reproc_drain", "C16/drain.chunk_goes_to_the_sink_of_its_stream_with_its_tag"),
+    ("drain_initial_tag_wrong", "drain.c", "  r = err.function(REPROC_STREAM_IN, &initial, 0, err.context);", "  r = err.function(REPROC_STREAM_ERR, &initial, 0, err.context);", "reproc_drain", "C16/drain.second_call_is_err_sink_empty_with_input_tag"),
+    ("drain_skips_close_notification", "drain.c", "    if (r < 0 && r != REPROC_EPIPE) {\n      break;\n    }", "    if (r == REPROC_EPIPE) {\n      continue;\n    }\n    if (r < 0) {\n      break;\n    }", "reproc_drain", "C16/drain.loop_invariant_preserved_by_an_arbitrary_iteration"),
+    ("drain_ignores_sink_failure", "drain.c", "    r = sink.function(stream, buffer, bytes_read, sink.context);\n    if (r != 0) {\n      break;\n    }", "    r = sink.function(stream, buffer, bytes_read, sink.context);\n    if (r < 0) {\n      break;\n    }", "reproc_drain", "C16/drain.loop_invariant_preserved_by_an_arbitrary_iteration"),
+    ("drain_deadline_as_success", "drain.c", "      r = REPROC_ETIMEDOUT;\n      break;", "      r = 0;\n      break;", "reproc_drain", "C16/drain.zero_only_when_both_output_streams_are_closed"),
     ("read_wrong_stream", "reproc.c", "pipe_type *pipe = stream == REPROC_STREAM_OUT ? &process->pipe.out\n                                                : &process->pipe.err;", "pipe_type *pipe = stream == REPROC_STREAM_OUT ? &process->pipe.err\n                                                : &process->pipe.out;", "reproc_read", "C02/reproc_read.one_read_on_that_stream"),
     ("read_epipe_not_sticky", "reproc.c", "  if (r == REPROC_EPIPE) {\n    *pipe = pipe_destroy(*pipe);\n  }", "  if (r == REPROC_EPIPE) {\n    pipe_destroy(*pipe);\n  }", "reproc_read", "C02/reproc_read.epipe_is_sticky"),
     ("close_not_idempotent", "reproc.c", "      process->pipe.in = pipe_destroy(process->pipe.in);\n      return 0;", "      pipe_destroy(process->pipe.in);\n      return 0;", "reproc_close", "C02+C14/reproc_close.closes_exactly_that_stream"),
